@@ -100,6 +100,11 @@ def run(tier, seed, replay):
     nisa = ic.report_trace_results(v, traces, res, "isatrace", "instruction-level")
     nt2, nimg2, nedges = (4, 3, 700) if tier == "quick" else (32, 6, 1500)
     etraces = [vlib.run_scenario(ic.edge_trace_ops(rng, nimg2, nedges), "c01-edge-%d" % i)[0] for i in range(nt2)]
+    # "to the next instruction boundary" through the other public entry point: whole assembly-mode steps over the longest instructions
+    # (MUL, DIV by 1 with the largest quotients) with and without a key interrupt, and over every opcode with an interrupt accepted at its end
+    from checks import c11
+    etraces.append(vlib.run_scenario(c11.long_instruction_trace(), "c01-long")[0])
+    etraces.append(vlib.run_scenario(c11.bytes_int_trace(range(0, 256, 3)), "c01-int")[0])
     eres = vlib.validate_traces(etraces, cfg="TraceMachine")
     nedge = ic.report_trace_results(v, etraces, eres, "edgetrace", "clock-edge-level")
     cov = {
